@@ -122,7 +122,7 @@ def run(rep: Report) -> None:
     from ..interp import Raised, TV
 
     ncomp = 0
-    for variant in ("merge", "minimal", "bifurcation"):
+    for variant in ("merge", "minimal", "bifurcation", "ring", "interleaved"):
         for st in ("SX", "MX"):
             for compact in (0, 1, 2):
                 for more_out in (False, True):
